@@ -24,6 +24,17 @@ type Solver struct {
 	log     *bufio.Writer // optional transcript
 	marker  int
 	kind    string
+
+	// incremental reuse of the path prefix shared with the previous path:
+	// one solver scope per decision level
+	level     int // level being written by the current path
+	kept      int // levels 0..kept are already in the solver (shared prefix)
+	pushed    int // levels 0..pushed exist in the solver
+	lvlTerms  [][]*Term  // per level: terms defined there
+	lvlDecls  [][]string // per level: names declared there
+	lvlFinger []uint64   // per level: fingerprint of what was asserted
+	curFinger uint64
+	Mismatch  bool
 }
 
 type SolverStats struct {
@@ -64,6 +75,7 @@ func NewSolver(transcript string) (*Solver, error) {
 			s.log = bufio.NewWriter(f)
 		}
 	}
+	s.pushed, s.kept, s.level = -1, -1, -1
 	s.send("(set-option :print-success false)")
 	if strings.Contains(s.kind, "z3") {
 		s.send(fmt.Sprintf("(set-option :timeout %d)", QueryTimeoutMS))
@@ -97,16 +109,73 @@ func (s *Solver) reset() {
 	s.decl = make(map[string]bool)
 }
 
-// BeginPath opens a fresh scope for one execution path.
-func (s *Solver) BeginPath() {
-	s.reset()
-	s.send("(push 1)")
+// BeginPath prepares the solver for a path that shares its first `shared`
+// decisions with the previous path of this worker (-1: nothing to reuse).
+// Levels 0..shared stay in the solver; deeper levels are popped.
+func (s *Solver) BeginPath(shared int) {
+	if s.pushed < 0 {
+		shared = -1
+	}
+	if shared > s.pushed {
+		shared = s.pushed
+	}
+	for s.pushed > shared {
+		for _, t := range s.lvlTerms[s.pushed] {
+			delete(s.emitted, t)
+		}
+		for _, n := range s.lvlDecls[s.pushed] {
+			delete(s.decl, n)
+		}
+		s.lvlTerms = s.lvlTerms[:s.pushed]
+		s.lvlDecls = s.lvlDecls[:s.pushed]
+		s.lvlFinger = s.lvlFinger[:s.pushed]
+		s.send("(pop 1)")
+		s.pushed--
+	}
+	s.kept = shared
+	s.level = -1
+	s.curFinger = 0
+	s.Decision() // level 0: everything before the first decision
 }
 
-// EndPath discards everything asserted/declared during the path.
+// Decision starts the next level (called at the start of a path and at every decision).
+func (s *Solver) Decision() {
+	if s.level >= 0 {
+		if s.level <= s.kept {
+			if s.lvlFinger[s.level] != s.curFinger {
+				s.Mismatch = true
+			}
+		} else {
+			s.lvlFinger[s.level] = s.curFinger
+		}
+	}
+	s.level++
+	s.curFinger = 0
+	if s.level > s.kept {
+		s.send("(push 1)")
+		s.pushed = s.level
+		s.lvlTerms = append(s.lvlTerms, nil)
+		s.lvlDecls = append(s.lvlDecls, nil)
+		s.lvlFinger = append(s.lvlFinger, 0)
+	}
+}
+
+// EndPath closes the fingerprint of the last level.
 func (s *Solver) EndPath() {
-	s.send("(pop 1)")
-	s.reset()
+	if s.level >= 0 && s.level > s.kept {
+		s.lvlFinger[s.level] = s.curFinger
+	}
+}
+
+func fingerprint(h uint64, t *Term) uint64 {
+	k := t.Key()
+	if k == "" {
+		k = "big"
+	}
+	for i := 0; i < len(k); i++ {
+		h = (h ^ uint64(k[i])) * 1099511628211
+	}
+	return h*31 + 7
 }
 
 // ref makes sure every variable of t is declared and every shared inner node
@@ -119,6 +188,7 @@ func (s *Solver) ref(t *Term) string {
 		q := quoteSym(t.Name)
 		if !s.decl[t.Name] {
 			s.decl[t.Name] = true
+			s.lvlDecls[s.pushed] = append(s.lvlDecls[s.pushed], t.Name)
 			s.send(fmt.Sprintf("(declare-const %s %s)", q, sortSMT(t.W)))
 		}
 		return q
@@ -131,6 +201,7 @@ func (s *Solver) ref(t *Term) string {
 	if t.Op == OpApp {
 		if !s.decl["fn:"+t.Name] {
 			s.decl["fn:"+t.Name] = true
+			s.lvlDecls[s.pushed] = append(s.lvlDecls[s.pushed], "fn:"+t.Name)
 			var as []string
 			for _, a := range t.Args {
 				as = append(as, sortSMT(a.W))
@@ -148,6 +219,7 @@ func (s *Solver) ref(t *Term) string {
 	name := "t!" + strconv.FormatInt(s.nextID, 10)
 	s.send(fmt.Sprintf("(define-fun %s () %s %s)", name, sortSMT(t.W), sb.String()))
 	s.emitted[t] = name
+	s.lvlTerms[s.pushed] = append(s.lvlTerms[s.pushed], t)
 	return name
 }
 
@@ -155,6 +227,10 @@ func (s *Solver) ref(t *Term) string {
 func (s *Solver) Assert(t *Term) {
 	if t.IsTrue() {
 		return
+	}
+	s.curFinger = fingerprint(s.curFinger, t)
+	if s.level <= s.kept {
+		return // shared prefix: already asserted by the previous path
 	}
 	s.send("(assert " + s.ref(t) + ")")
 }
